@@ -188,6 +188,10 @@ class CtlSim:
                 self.cancel_counts.append((n, rec["cancelling"]))
                 self.ev("wc", n, rec["cancelling"])
             raise
+        except RuntimeError:
+            rec["state"] = "failed"
+            self.ev("wf", n)
+            raise
         else:
             rec["state"] = "done"
             self.ev("wx", n)
@@ -507,6 +511,11 @@ class CtlSim:
     def _op_gate(self, st):
         fut = self.gates.get(st["k"])
         if fut is None or fut.done():
+            return
+        if st.get("x"):
+            # the worker fails: a later flush / gather-and-close without --return-exceptions is answered with this text
+            self.stats["fault:worker_raises"] += 1
+            fut.set_exception(RuntimeError(f"boom in worker {st['k']}"))
             return
         fut.set_result(None)
 
